@@ -14,10 +14,11 @@
      stack empty, something held    -> PTake of a time-out at the FIRST busy action (the guard of PTake).
    [drain k s] iterates the schedule; the witness of the theorem is [drain (S (rank s)) s].
 
-   What the proof does NOT need (findings, see the end of the file):
+   What the proof does NOT need (findings):
      - reachability is used only for [pcrashed s = false] (no step of [pstep] sets the flag, so it is
        false in every reachable state): the theorem holds from every non-crashed state, reachable or not;
-     - the hypothesis [0 <= n] of the statement is not used. *)
+     - the premise [0 <= n] of the statement is not used;
+     - none of the invariants of Proofs/Proc.v ([struct_ok], [ord_ok]) is used: no guard P1-P6 can block the schedule. *)
 From Verif Require Import Base.Sx Model.Proc Proofs.Proc Proofs.ProcTheorems.
 From Coq Require Import Lia ZifyBool Bool List ZArith Arith.
 Import ListNotations.
